@@ -31,12 +31,49 @@ ASSUMPTIONS = c08.ASSUMPTIONS
 DOC_OPTS = {"max_nodes": 6, "max_frags": 2, "max_sels": 3, "max_depth": 3}
 
 
+def introspection_request(c, schema, like):
+    """a request selecting __type / __schema / __typename at the root under a drawn alias and position"""
+    def f(name, alias=None, args=None, sels=None):
+        return {"k": "field", "alias": alias, "name": name, "args": args or [], "dirs": [], "sels": sels, "id": None}
+
+    sels = [f("__typename", alias=c.choice([None, "zzt"]))] if c.maybe(50) else []
+    for _ in range(c.int(1, 2)):
+        alias = "zzi%d" % c.int(0, 99)
+        if c.maybe(50):
+            sels.append(f("__type", alias, [["name", ["str", c.choice(list(schema["types"]) + ["Int", "Nope"])]]], [f("name"), f("kind")]))
+        else:
+            sels.append(f("__schema", alias, [], [f("queryType", None, [], [f("name")])]))
+    sels = c.shuffle(sels)
+    doc = {"defs": [{"k": "op", "type": "query", "name": None, "vars": [], "dirs": [], "sels": sels}]}
+    r = copy.deepcopy(like)
+    r.update(doc=doc, op=None, variables={}, faults=[], kind="introspection")
+    return r
+
+
+def response_keys(doc):
+    keys = set()
+
+    def walk(sels):
+        for x in sels or ():
+            if x["k"] == "field":
+                keys.add(x.get("alias") or x["name"])
+            walk(x.get("sels"))
+
+    for d in doc["defs"]:
+        if d["k"] in ("op", "frag"):
+            walk(d["sels"])
+    return keys
+
+
 def gen_requests(c, schema, plan):
     reqs = []
     n = c.int(2, 5)
     base = None
     while len(reqs) < n:
-        kind = c.weighted([(5, "new"), (3, "same_doc_other_vars"), (2, "repeat"), (2, "invalid"), (2, "faulty")]) if reqs else "new"
+        kind = c.weighted([(5, "new"), (3, "same_doc_other_vars"), (2, "repeat"), (2, "invalid"), (2, "faulty"), (2, "introspection")]) if reqs else "new"
+        if kind == "introspection":
+            reqs.append(introspection_request(c, schema, reqs[0]))
+            continue
         if kind == "new" or base is None:
             spec, _ = c01.build_request(c, schema, plan, DOC_OPTS)
             tree, ex, expected, root = c01.reference(spec, c)
@@ -104,7 +141,7 @@ def new_state(schema, req, rid):
 
 def execute(h, req, rs, text):
     return h.engine.execute(
-        text, operation_name=req["op"], context=rs.ctx, variables=copy.deepcopy(req["variables"]),
+        text, operation_name=req["op"], context=rs.ctx, variables=copy.deepcopy(c02.effective_variables(req)),
         initial_value=rs.mat.obj(rs.tree.root(req["root"])),
     )
 
@@ -121,6 +158,12 @@ def solo(h, schema, reqs, texts):
         h.gate = None
         resp = run_async(execute(h, req, rs, texts[i]))
         out.append((canon(core.jsonable(resp)), summarize(rs)))
+        keys = response_keys(req["doc"])
+        for e in (resp.get("errors") or ()) if (isinstance(resp, dict) and req["kind"] != "invalid") else ():
+            pth = e.get("path") if isinstance(e, dict) else None
+            if isinstance(pth, list) and pth and pth[0] not in keys:
+                raise Violation({"schema": schema, "requests": reqs}, "request %d run alone reports an error at path %r, which is not a response key of its own document %r (state left by an earlier request?)" % (i, pth, sorted(keys)), tag="foreign_path")
+        core.scribble(resp, "solo-%d" % i)
     return out
 
 
@@ -151,6 +194,13 @@ def check(spec, h, budget, scripts, stats=None):
         sspec = dict(spec, schedule=list(script))
         for i, resp in enumerate(resps):
             got = canon(core.jsonable(resp))
+            if reqs[i]["kind"] != "invalid":
+                keys = response_keys(reqs[i]["doc"])
+                for e in (resp.get("errors") or ()) if isinstance(resp, dict) else ():
+                    pth = e.get("path") if isinstance(e, dict) else None
+                    if isinstance(pth, list) and pth and pth[0] not in keys:
+                        raise Violation(sspec, "request %d reports an error at path %r, which is not a response key of its own document %r (leaked from another request?)\nresponse=%s" % (i, pth, sorted(keys), got[:800]), tag="foreign_path")
+            core.scribble(resp, "concurrent-%d" % i)
             if got != before[i][0]:
                 raise Violation(sspec, "request %d (%s) answered differently when run concurrently\n alone:      %s\n concurrent: %s\nschedule=%r released=%r\nrequests:\n%s" % (
                     i, reqs[i]["kind"], before[i][0][:1500], got[:1500], script, s.released, "\n---\n".join("%d: op=%r vars=%r faults=%r\n%s" % (j, r["op"], r["variables"], r.get("faults"), texts[j]) for j, r in enumerate(reqs))), tag="response")
@@ -180,6 +230,8 @@ def check(spec, h, budget, scripts, stats=None):
 def case(c, stats):
     tier = os.environ.get("VERIF_TIER_INTERNAL", "quick")
     schema, base_plan = c01.build_schema(c, {"max_objects": 3, "max_interfaces": 1, "max_unions": 1})
+    if c.maybe(25):
+        schema["schema_dirs"] = [{"name": "nonIntrospectable", "args": []}]  # introspection requests are then refused (with located errors)
     cfg = c08.gen_config(c, schema, c.maybe(60))
     plan = c08.plan_for(base_plan, cfg)
     plan["gate_hooks"] = False
